@@ -952,11 +952,18 @@ CS104_RedundancyGroup_initializeMessageQueues(CS104_RedundancyGroup self, int lo
     if (lowPrioMaxQueueSize < 1)
         lowPrioMaxQueueSize = CONFIG_CS104_MESSAGE_QUEUE_SIZE;
 
+    /* a restarted server gets fresh queues: release those of the previous run */
+    if (self->asduQueue)
+        MessageQueue_destroy(self->asduQueue);
+
     self->asduQueue = MessageQueue_create(lowPrioMaxQueueSize);
 
     /* initialize high priority queue */
     if (highPrioMaxQueueSize < 1)
         highPrioMaxQueueSize = CONFIG_CS104_MESSAGE_QUEUE_HIGH_PRIO_SIZE;
+
+    if (self->connectionAsduQueue)
+        HighPriorityASDUQueue_destroy(self->connectionAsduQueue);
 
     self->connectionAsduQueue = HighPriorityASDUQueue_create(highPrioMaxQueueSize);
 }
@@ -1246,11 +1253,18 @@ initializeMessageQueues(CS104_Slave self, int lowPrioMaxQueueSize, int highPrioM
     if (lowPrioMaxQueueSize < 1)
         lowPrioMaxQueueSize = CONFIG_CS104_MESSAGE_QUEUE_SIZE;
 
+    /* a restarted server gets fresh queues: release those of the previous run */
+    if (self->asduQueue)
+        MessageQueue_destroy(self->asduQueue);
+
     self->asduQueue = MessageQueue_create(lowPrioMaxQueueSize);
 
     /* initialize high priority queue */
     if (highPrioMaxQueueSize < 1)
         highPrioMaxQueueSize = CONFIG_CS104_MESSAGE_QUEUE_HIGH_PRIO_SIZE;
+
+    if (self->connectionAsduQueue)
+        HighPriorityASDUQueue_destroy(self->connectionAsduQueue);
 
     self->connectionAsduQueue = HighPriorityASDUQueue_create(highPrioMaxQueueSize);
 }
